@@ -224,11 +224,12 @@ def variant_coverage(repo: Repo, R):
     a = fpp.node.args.args[0].arg
     arms = {}
     ctor = [c for c, _b in pat.find("Prefixed(number=$N, prefix=$P)", fpp.node)]
-    pre_ok = False
-    if len(ctor) == 1:
-        kw = {k.arg: k.value for k in ctor[0].keywords}
-        pre_ok = shared.prov_text(fpp.node, kw["prefix"]) == f"import_prefix({a}.prefix)"
-        for v, cds in shared.alternatives(fpp.node, kw["number"], list(shared.path_conditions(fpp.node, ctor[0]))):
+    pre_ok = bool(ctor)
+    # one construction after the variant is decided, or one per variant
+    for ct in ctor:
+        kw = {k.arg: k.value for k in ct.keywords}
+        pre_ok = pre_ok and shared.prov_text(fpp.node, kw["prefix"]) == f"import_prefix({a}.prefix)"
+        for v, cds in shared.alternatives(fpp.node, kw["number"], list(shared.path_conditions(fpp.node, ct)), at=ct):
             for t, pol in cds:
                 tx = shared.prov(fpp.node, t)
                 if not pol or not isinstance(tx, ast.Compare) or len(tx.ops) != 1 or ast.unparse(tx.left) != f"{a}.WhichOneof('number')":
